@@ -45,6 +45,9 @@ CHECKS = {
  'C13': ('strspace', 'bounded-exhaustive enumeration of strings against all four parsers + Vector() of swept objects against the other parsers',
          'No string of the E1 spaces (incl. the header matrix) is accepted by two parsers; Vector() of every swept object is rejected by the three other parsers.',
          'A doubly accepted string would have to lie inside the explored neighbourhoods.', '5 C13, 4 E1'),
+ 'C14': ('sched', 'stateless exploration of all schedules and pool answers under a controlled scheduler (sync redirected to a shim by build overlay), DFS with replay; all call histories to a depth; -race side pass',
+         'Every interleaving at sync.Pool operations and every pool answer of 2-3 thread harnesses (complete or preemption-bounded as stated) and every call history up to depth 3/4 gives each call the result it has in isolation; returned strings never change; shared objects unchanged. Unsynchronised sharing is looked for by a free-running -race pass (a detector, not an enumeration).',
+         'Trusted: the shim models sync.Pool as a bag with arbitrary drops; scheduling points only at sync operations; sequential consistency.', '5 C14, 4 E4'),
  'C15': ('numspace', 'exhaustive enumeration of all 2^32 float32 values + ulp neighbourhoods of every threshold, three packages',
          'Rating equals the interval table on every float32 value, every float64 within 4096 ulps of a threshold, grids and specials, identically in the three packages.',
          'float64 values neither float32-representable nor near a threshold are covered by grids only.', '5 C15, 4 E5'),
@@ -86,7 +89,7 @@ def main():
         'setup_cmd': './setup.sh',
         'hooks': {
             'guard': 'verif',
-            'enable': 'no guarded source exists in /repo: all observation is through the exported API; the only instrumentation (C14) is a go build -overlay generated at check time from the working tree',
+            'enable': 'no guarded source exists in /repo: all observation is through the exported API; the only instrumentation (C14) is a go build -overlay generated at check time from the working tree (sync import of the four packages redirected to mc/shim/vsync.go.src; harness built with -tags verifsched)',
             'baseline_off_cmd': BASELINE,
             'source_commits': [],
             'add_only': True,
@@ -108,6 +111,7 @@ def main():
 ENGINES = [
  {'name': 'objspace', 'path': 'mc/engine/objspace.go', 'serves_properties': ['C02', 'C07', 'C09', 'C16'], 'kind_free_text': 'explicit-state exploration of the packed objects as a transition system (states = metric assignments, transitions = Set/ParseVector), on the implementation, array model as oracle'},
  {'name': 'strspace', 'path': 'mc/engine/strspace.go', 'serves_properties': ['C01', 'C06', 'C08', 'C13', 'C18'], 'kind_free_text': 'the four parsers as state machines: bounded-exhaustive enumeration of strings (edit neighbourhoods of seeds, language enumerations, header matrix) judged by a reference grammar / automaton'},
+ {'name': 'sched', 'path': 'mc/schedcmd/main.go', 'serves_properties': ['C14'], 'kind_free_text': 'controlled scheduler + stateless DFS over schedules and sync.Pool answers on the real code (sync redirected by go build -overlay), history exploration, free-running -race side pass'},
  {'name': 'numspace', 'path': 'mc/engine/props_c15_c16.go', 'serves_properties': ['C15', 'C17'], 'kind_free_text': 'exhaustive float32 / ulp sweeps for Rating; exhaustive per-call allocation measurement in worker processes'},
  {'name': 'scorespace', 'path': 'mc/engine/score4.go', 'serves_properties': ['C03', 'C04', 'C05', 'C10', 'C11', 'C12'], 'kind_free_text': 'exhaustive enumeration of effective metric classes against exact (integer/rational) executable specifications; deviation-bounded lifting to representations'},
 ]
